@@ -78,11 +78,12 @@ Qed.
 
 (* completed enable: link-snap of the current revision of an inactive snap (it moves to the end of the kept list) *)
 Theorem enable_wf : forall o s retain inuse,
-  wf s -> okind o = OEnable -> orev o = cur s -> accepts o s = true -> wf (run_change o 0 (tasks_for o s retain inuse) s).
+  wf s -> okind o = OEnable -> accepts o s = true -> wf (run_change o 0 (tasks_for o s retain inuse) s).
 Proof.
-  intros o s retain inuse W K RC AC. rewrite run_change_ok.
+  intros o s retain inuse W K AC. rewrite run_change_ok.
   assert (NR : is_revert o = false) by (unfold is_revert; rewrite K; reflexivity).
   unfold accepts in AC. rewrite K in AC. bool_hyps.
+  match goal with H : orev o = cur s |- _ => rename H into RC end.
   destruct W as [W1 W2 W3 W4 W5 W6 W7 W8].
   unfold installed in *. destruct (seq s) as [|x0 l0] eqn:SQ0; [discriminate|]. rewrite <- SQ0 in *.
   assert (NE : seq s <> []) by (rewrite SQ0; discriminate). specialize (W2 NE).
